@@ -270,6 +270,35 @@ fn recorded_instants(ctx: &Ctx) -> SubReport {
             }
         }
     }
+    // several entries, one of which has a time outside the range: whether the builder refuses it (today: by panicking in the
+    // setter) or skips it, the entries that do end up in a package must be entries that were given — name, text and second together
+    for bad_at in 0..3usize {
+        for bad_time in [-1i64, -86_400 * 365, 1i64 << 32, 1i64 << 40] {
+            rank += 1;
+            acc.evals += 1;
+            let given: Vec<(String, String, i64)> = (0..3).map(|k| (format!("N{} <n{}@x>", k, k), format!("- entry {}", k), if k == bad_at { bad_time } else { 1_000_000_000 + k as i64 * 1_000 })).collect();
+            let case = json!({"kind": "changelog-sequence", "entries": given.iter().map(|g| json!({"name": g.0, "time": g.2})).collect::<Vec<_>>()});
+            let r = catch(|| {
+                let mut b = rpm::PackageBuilder::new("t", "1", "MIT", "noarch", "s").compression(rpm::CompressionType::None);
+                for (n, t, secs) in &given {
+                    b = b.add_changelog_entry(n, t, chrono::Utc.timestamp_opt(*secs, 0).unwrap());
+                }
+                b.build().and_then(|p| p.metadata.get_changelog_entries())
+            });
+            match r {
+                Err(_) => acc.count("an entry outside the range is refused by a panic in the setter (the API has no error path; not judged)"),
+                Ok(Err(_)) => acc.count("refused with an error"),
+                Ok(Ok(got)) => {
+                    acc.nontrivial += 1;
+                    for e in &got {
+                        if !given.iter().any(|g| g.0 == e.name && g.1 == e.description && g.2 == e.timestamp as i64) {
+                            acc.viol(Violation::new("recorded-instants", format!("the package holds the changelog entry ({:?}, {:?}, {}) which was never given", e.name, e.description, e.timestamp), case.clone()).sig("clause", "changelog-time").rank(rank));
+                        }
+                    }
+                }
+            }
+        }
+    }
     // signature creation time
     let env = crate::spec::Env::new(&ctx.repo, "c20s");
     let base = crate::corpus::one_file().build(&env).unwrap_or_else(|e| crate::ctx::machinery(&format!("c20: {}", e)));
@@ -309,7 +338,7 @@ fn recorded_instants(ctx: &Ctx) -> SubReport {
             }
         }
     }
-    SubReport::new("recorded-instants", "A", "the other places where a caller's instant is recorded. Changelog entries: 12 seconds from 0 to 2^32−1 × given as integer, as zoned chrono values (one with a sub-second part) and as SystemTime with 999 999 999 ns × source date ∈ {none, 0, 1 600 000 000, 2^32−1}: get_changelog_entries returns the whole second, whatever the source date. OpenPGP signatures: the same 12 seconds (before and after the signing keys' own creation in 2025) × 2 keys × {sign_with_timestamp, build_and_sign with that source date}: the signature's creation-time subpacket is that second (build_and_sign with a source date in the future: the current time, as documented clamping)", acc)
+    SubReport::new("recorded-instants", "A", "the other places where a caller's instant is recorded. Changelog entries: 12 seconds from 0 to 2^32−1 × given as integer, as zoned chrono values (one with a sub-second part) and as SystemTime with 999 999 999 ns × source date ∈ {none, 0, 1 600 000 000, 2^32−1}: get_changelog_entries returns the whole second, whatever the source date; three entries of which one has a time outside the range (12 sequences): whatever is built holds only entries that were given. OpenPGP signatures: the same 12 seconds (before and after the signing keys' own creation in 2025) × 2 keys × {sign_with_timestamp, build_and_sign with that source date}: the signature's creation-time subpacket is that second (build_and_sign with a source date in the future: the current time, as documented clamping)", acc)
 }
 
 fn builder_path(ctx: &Ctx) -> SubReport {
